@@ -1,0 +1,39 @@
+//go:build verif
+
+package tls
+
+import "errors"
+
+// VerifSendKeyUpdate is a driver hook for the /verif monitors (properties C25, C34): the
+// public API offers no way to start a TLS 1.3 key update, so a peer that sends
+// KeyUpdate messages cannot otherwise be put in front of handleKeyUpdate. It does
+// what a conforming sender does, as one critical section on the outgoing half
+// (the sending half of handleKeyUpdate): write the KeyUpdate handshake record
+// under the current key, then advance the outgoing traffic secret.
+// It returns an error before the handshake is complete and for versions before TLS 1.3.
+func (c *Conn) VerifSendKeyUpdate(requestUpdate bool) error {
+	if !c.handshakeComplete() {
+		return errors.New("verif: handshake not complete")
+	}
+	if c.vers != VersionTLS13 {
+		return errors.New("verif: key update needs TLS 1.3")
+	}
+	suite := cipherSuiteTLS13ByID(c.cipherSuite)
+	if suite == nil {
+		return errors.New("verif: unknown TLS 1.3 suite")
+	}
+	c.out.Lock()
+	defer c.out.Unlock()
+	if err := c.out.err; err != nil {
+		return err
+	}
+	if c.closeNotifySent {
+		return errShutdown
+	}
+	msg := &keyUpdateMsg{updateRequested: requestUpdate}
+	if _, err := c.writeRecordLocked(recordTypeHandshake, msg.marshal()); err != nil {
+		return c.out.setErrorLocked(err)
+	}
+	c.out.setTrafficSecret(suite, suite.nextTrafficSecret(c.out.trafficSecret))
+	return nil
+}
